@@ -5,7 +5,6 @@ from . import core, instrument
 from . import modelgen
 from .modelgen import Pred
 
-_classes = {}
 
 
 class NullLog:
@@ -126,6 +125,13 @@ class ValueCb:
                 leaf.quality = leaf.quality * self.qmul
 
 
+class BlockByState:
+    """Scheduler override action: a falsy state blocks the device's input."""
+
+    def __call__(self, scheduler, obj, time, state):
+        obj.block_input = not bool(state)
+
+
 class World:
     """The light object graph that probes deep-copy: system + devices."""
 
@@ -182,83 +188,83 @@ class ScriptAction:
                 self.log.script.append((self.log.now(), op, out, self.log.serial()))
 
 
+core.load_library()
+from simprocesd.model.factory_floor import PartProcessor, PartGenerator, Part, Batch  # noqa: E402
+
+
+class HProc(PartProcessor):
+    """PartProcessor whose work orders have durations / capacities / costs from the spec."""
+
+    def __init__(self, name, upstream, cycle_time, resources_for_processing, wo, log, dev_id):
+        self.h_wo = wo or {}
+        self.h_log = log
+        self.h_id = dev_id
+        super().__init__(name=name, upstream=upstream, cycle_time=cycle_time,
+                         resources_for_processing=resources_for_processing)
+
+    def get_work_order_duration(self, tag):
+        return self.h_wo.get(tag, [0, 0, 0])[0]
+
+    def get_work_order_capacity(self, tag):
+        return self.h_wo.get(tag, [0, 0, 0])[1]
+
+    def get_work_order_cost(self, tag):
+        return self.h_wo.get(tag, [0, 0, 0])[2]
+
+    def start_work(self, tag):
+        if not instrument.PROBING:
+            self.h_log.hooks.append((self.h_log.now(), self.h_id, 'start', tag, self.h_log.serial()))
+        super().start_work(tag)
+
+    def end_work(self, tag):
+        if not instrument.PROBING:
+            self.h_log.hooks.append((self.h_log.now(), self.h_id, 'end', tag, self.h_log.serial()))
+        super().end_work(tag)
+
+
+class HGen(PartGenerator):
+    """Part generator that stamps every leaf part with a harness uid."""
+
+    def __init__(self, src_id, values, qualities, batch_sizes, log):
+        super().__init__(name_prefix=src_id)
+        self.src_id = src_id
+        self.values = values
+        self.qualities = qualities
+        self.batch_sizes = batch_sizes
+        self.log = log
+
+    def __deepcopy__(self, memo):
+        return HGen(self.src_id, self.values, self.qualities, self.batch_sizes, NULL_LOG)
+
+    def _leaf(self, name, n, k, j):
+        v = self.values[j % len(self.values)]
+        q = self.qualities[j % len(self.qualities)]
+        p = Part(name=name, value=v, quality=q)
+        p.huid = f'{self.src_id}:{n}' if k is None else f'{self.src_id}:{n}.{k}'
+        p.hseq = n
+        p.hsrc = self.src_id
+        p.h_initial_value = v
+        return p
+
+    def generate_part_helper(self, part_name, n):
+        if self.batch_sizes:
+            size = self.batch_sizes[(n - 1) % len(self.batch_sizes)]
+            parts = [self._leaf(f'{part_name}.{k}', n, k, n + k) for k in range(size)]
+            top = Batch(name=part_name, parts=parts)
+            top.hseq = n
+            top.hsrc = self.src_id
+            top.huid = f'{self.src_id}:{n}#'
+        else:
+            top = self._leaf(part_name, n, None, n - 1)
+            parts = [top]
+        lg = self.log
+        lg.generated.append(top)
+        lg.leaves.extend(parts)
+        return top
+
+
 def classes():
-    if _classes:
-        return _classes
-    core.load_library()
-    from simprocesd.model.factory_floor import PartProcessor, PartGenerator, Part, Batch
-
-    class HProc(PartProcessor):
-        """PartProcessor whose work orders have durations / capacities / costs from the spec."""
-
-        def __init__(self, name, upstream, cycle_time, resources_for_processing, wo, log, dev_id):
-            self.h_wo = wo or {}
-            self.h_log = log
-            self.h_id = dev_id
-            super().__init__(name=name, upstream=upstream, cycle_time=cycle_time,
-                             resources_for_processing=resources_for_processing)
-
-        def get_work_order_duration(self, tag):
-            return self.h_wo.get(tag, [0, 0, 0])[0]
-
-        def get_work_order_capacity(self, tag):
-            return self.h_wo.get(tag, [0, 0, 0])[1]
-
-        def get_work_order_cost(self, tag):
-            return self.h_wo.get(tag, [0, 0, 0])[2]
-
-        def start_work(self, tag):
-            if not instrument.PROBING:
-                self.h_log.hooks.append((self.h_log.now(), self.h_id, 'start', tag, self.h_log.serial()))
-            super().start_work(tag)
-
-        def end_work(self, tag):
-            if not instrument.PROBING:
-                self.h_log.hooks.append((self.h_log.now(), self.h_id, 'end', tag, self.h_log.serial()))
-            super().end_work(tag)
-
-    class HGen(PartGenerator):
-        """Part generator that stamps every leaf part with a harness uid."""
-
-        def __init__(self, src_id, values, qualities, batch_sizes, log):
-            super().__init__(name_prefix=src_id)
-            self.src_id = src_id
-            self.values = values
-            self.qualities = qualities
-            self.batch_sizes = batch_sizes
-            self.log = log
-
-        def __deepcopy__(self, memo):
-            return HGen(self.src_id, self.values, self.qualities, self.batch_sizes, NULL_LOG)
-
-        def _leaf(self, name, n, k, j):
-            v = self.values[j % len(self.values)]
-            q = self.qualities[j % len(self.qualities)]
-            p = Part(name=name, value=v, quality=q)
-            p.huid = f'{self.src_id}:{n}' if k is None else f'{self.src_id}:{n}.{k}'
-            p.hseq = n
-            p.hsrc = self.src_id
-            p.h_initial_value = v
-            return p
-
-        def generate_part_helper(self, part_name, n):
-            if self.batch_sizes:
-                size = self.batch_sizes[(n - 1) % len(self.batch_sizes)]
-                parts = [self._leaf(f'{part_name}.{k}', n, k, n + k) for k in range(size)]
-                top = Batch(name=part_name, parts=parts)
-                top.hseq = n
-                top.hsrc = self.src_id
-                top.huid = f'{self.src_id}:{n}#'
-            else:
-                top = self._leaf(part_name, n, None, n - 1)
-                parts = [top]
-            lg = self.log
-            lg.generated.append(top)
-            lg.leaves.extend(parts)
-            return top
-
-    _classes.update(HProc=HProc, HGen=HGen)
-    return _classes
+    return {'HProc': HProc, 'HGen': HGen}
 
 
 class Model:
@@ -283,7 +289,7 @@ class Model:
         return self.world.devs
 
 
-def build(spec, bus=None, script=True):
+def build(spec, bus=None, script=True, system=None, known=None):
     """Create the real objects.  Must run with the bus active (events created
     here get serials / tie weights)."""
     core.load_library()
@@ -296,15 +302,22 @@ def build(spec, bus=None, script=True):
     log = m.log
     log.bus = bus
     modelgen.GATE_LOG = log.gate_calls
-    rm = ResourceManager()
-    for r, c in sorted(spec.get('resources', {}).items()):
-        rm.add_resources(r, c)
-    w.rm = rm
-    w.system = System(resource_manager=rm)
+    if system is None:
+        rm = ResourceManager()
+        for r, c in sorted(spec.get('resources', {}).items()):
+            rm.add_resources(r, c)
+        w.rm = rm
+        w.system = System(resource_manager=rm)
+    else:
+        rm = system.resource_manager
+        for r, c in sorted(spec.get('resources', {}).items()):
+            rm.add_resources(r, c)
+        w.rm = rm
+        w.system = system
     log.env = w.system.env
     for it in spec['items']:
         i, k = it['id'], it['kind']
-        ups = [w.devs[u] for u in it.get('up', [])]
+        ups = [w.devs[u] if u in w.devs else known[u] for u in it.get('up', [])]
         if k == 'source':
             gen = cls['HGen'](i, it.get('values', [0]), it.get('qualities', [1]), it.get('batch'), log)
             kw = {}
@@ -346,6 +359,33 @@ def build(spec, bus=None, script=True):
             if it.get('cap') is not None:
                 kw['capacity'] = it['cap']
             d = Maintainer(name=i, value=it.get('value', 0), **kw)
+        elif k == 'scheduler':
+            from simprocesd.model.factory_floor import ActionScheduler
+            kw = {}
+            if it.get('cyclical') is not None:
+                kw['is_cyclical'] = it['cyclical']
+            d = ActionScheduler([tuple(x) for x in it['timetable']], name=i, **kw)
+            for tgt in it.get('targets', []):
+                d.register_object(w.devs[tgt], BlockByState())
+        elif k == 'psensor':
+            from simprocesd.model.sensors import PeriodicSensor, AttributeProbe
+            kw = {}
+            if it.get('capacity') is not None:
+                kw['data_capacity'] = it['capacity']
+            d = PeriodicSensor(it['interval'], [AttributeProbe(a, w.devs[it['target']]) for a in it['attrs']],
+                               name=i, **kw)
+        elif k == 'osensor':
+            from simprocesd.model.sensors import OutputPartSensor, AttributeProbe
+            kw = {}
+            if it.get('capacity') is not None:
+                kw['data_capacity'] = it['capacity']
+            d = OutputPartSensor(w.devs[it['target']], [AttributeProbe(a, None) for a in it['attrs']],
+                                 sensing_interval=it.get('n', 0), name=i, **kw)
+        elif k == 'cms':
+            from simprocesd.model.cms import Cms
+            d = Cms(w.devs[it['maint']], name=i)
+            for sn in it.get('sensors', []):
+                d.add_sensor(w.devs[sn])
         else:
             raise ValueError(k)
         if isinstance(d, PartHandler) and k != 'source':
@@ -354,6 +394,7 @@ def build(spec, bus=None, script=True):
         m.id_of[id(d)] = i
     if script:
         env = w.system.env
+        shift = spec.get('script_shift', 0)
         for op in spec.get('script', []):
-            env.schedule_event(op['t'], -2, ScriptAction(w, op, log), op['prio'])
+            env.schedule_event(op['t'] + shift, -2, ScriptAction(w, op, log), op['prio'])
     return m
